@@ -547,7 +547,7 @@ impl Check for C09 {
     }
     fn assumptions(&self) -> Vec<&'static str> {
         vec![
-            "a block served between the manager's unchoke decision and the Unchoke frame is accepted (state lag); only blocks served while both the wire state and the manager state say choked are reported",
+            "a block served between the manager's unchoke decision and the Unchoke frame is accepted (state lag) provided that frame follows within 5 virtual s on a connection that stays open and is being read; otherwise, and whenever both the wire state and the manager state say choked, it is reported",
             "closing the connection instead of answering is accepted",
         ]
     }
@@ -564,7 +564,8 @@ impl Check for C09 {
         let mut mgr_choked: BTreeMap<String, bool> = BTreeMap::new();
         let mut kinds: BTreeSet<&'static str> = BTreeSet::new();
         let mut served = 0u64;
-        for TL { seq, k, .. } in &v.tl {
+        let mut lag: Vec<(ConnId, u64, u64, String)> = Vec::new();
+        for TL { seq, k, t: tms } in &v.tl {
             let seq = *seq;
             match k {
                 TK::C(c, Msg::Choke) => {
@@ -572,6 +573,7 @@ impl Check for C09 {
                 }
                 TK::C(c, Msg::Unchoke) => {
                     wire_unchoked.insert(*c, true);
+                    lag.retain(|x| x.0 != *c);
                 }
                 TK::C(c, Msg::Piece { index, begin, block }) => {
                     served += 1;
@@ -600,7 +602,9 @@ impl Check for C09 {
                         vd.fail("C09", "C09.served-while-choked", format!("conn {} ({}) Piece({},{},{}) sent while the client has that peer choked", c, addr, i, b, l), seq);
                     }
                     if !w && !m {
+                        // state lag is only a lag if the Unchoke frame then follows
                         vd.probe("served_in_unchoke_lag");
+                        lag.push((*c, seq, *tms, format!("conn {} ({}) Piece({},{},{}) sent after the client's Choke, and no Unchoke followed within 5 s", c, addr, i, b, l)));
                     }
                 }
                 TK::Raw(i) => {
@@ -650,6 +654,14 @@ impl Check for C09 {
                     }
                 }
                 _ => {}
+            }
+        }
+        for (c, seq, t, what) in &lag {
+            let closed_by = v.conns.get(c).and_then(|x| x.client_close).map(|(_, tc)| tc).unwrap_or(u64::MAX);
+            let peer_gone = v.conns.get(c).and_then(|x| x.peer_close).map(|(_, tc, _)| tc).unwrap_or(u64::MAX);
+            let stalled = v.reading_since(*c) > *t;
+            if closed_by > t + 5_000 && peer_gone > t + 5_000 && v.out.end_ms > t + 5_000 && !stalled {
+                vd.fail("C09", "C09.served-while-choked", what.clone(), *seq);
             }
         }
         for k in &kinds {
